@@ -61,8 +61,10 @@ Qed.
 
 Lemma vers_kv_reset (S : Z -> Prop) p s ts k v ttl s' : kv_reset p s ts k v ttl = Some s' -> vers_in S s -> vers_in S s'.
 Proof.
-  unfold kv_reset. destruct p; destruct (ttl <=? 0); try (intros X; inversion X; subst; auto; fail).
-  destruct (set_expire fresh_hdr (ttl + sec ts)); intros X; inversion X; subst; auto.
+  unfold kv_reset. destruct p; destruct (ttl <=? 0); try (intros X; inversion X; subst; auto; fail);
+    destruct (expire_when ts ttl) as [w|]; try discriminate.
+  - destruct (set_expire fresh_hdr w); intros X; inversion X; subst; auto.
+  - intros X; inversion X; subst; auto.
 Qed.
 
 Lemma vers_zset_item (S : Z -> Prop) s k v st x : S v -> vers_in S st -> vers_in S (zset_item s k v st x).
@@ -134,9 +136,7 @@ Section Step.
     - (* set *) unfold do_set. destruct (kv_reset Compact s ts k v 0) eqn:R; cbn [fst]; auto.
       unfold kv_reset in R. cbn in R. inversion R; subst. auto.
     - (* setex *) unfold do_setex. destruct (dur <=? 0); cbn [fst]; auto.
-      destruct (kv_reset Compact s ts k v dur) eqn:R; cbn [fst]; auto.
-      unfold kv_reset in R. destruct (dur <=? 0); [inversion R; subst; auto|].
-      destruct (set_expire fresh_hdr (dur + sec ts)); inversion R; subst; auto.
+      destruct (kv_reset Compact s ts k v dur) eqn:R; cbn [fst]; auto. eapply vers_kv_reset; eauto.
     - (* setnx *) unfold do_setnx. destruct (kv_prepare Compact s ts k) as [[h ov] ex]. destruct (kv_cur ov ex); cbn; auto.
     - (* getset *) unfold do_getset. destruct (kv_raw Compact s ts k) as [[h ov] ex]. cbn. auto.
     - (* mset *) destruct kvl as [|p kvl]; cbn [fst]; auto. generalize (p :: kvl). intros l. revert s V V'.
@@ -152,21 +152,26 @@ Section Step.
       + match goal with |- context [if ?c then _ else _] => destruct c end; cbn [fst]; auto.
         destruct (kv_prepare Compact s ts k) as [[h ov] ex]. cbn [fst]; auto.
     - (* del *) unfold do_del. cbn [fst]. revert s V V'. induction (dedup ks) as [|a l IH]; intros s V V'; simpl; auto.
-    - (* expire *) unfold do_expire. destruct t.
+    - (* expire *) unfold do_expire. destruct (expire_when ts dur) as [w|]; destruct t.
       + unfold kv_set_expire. destruct (kv_raw Compact s ts k) as [[h ov] ex]. destruct ov; cbn [fst]; auto.
-        destruct ex; cbn [fst]; auto. destruct (set_expire h (sec ts + dur)); cbn [fst]; auto.
+        destruct ex; cbn [fst]; auto. destruct (set_expire h w); cbn [fst]; auto.
       + unfold coll_set_expire. destruct (coll_header Compact s ts TH k) as [[h ud] ex] eqn:E. destruct ud as [[a b]|]; cbn [fst]; auto.
-        destruct ex; cbn [fst]; auto. unfold set_expire. destruct (dur + sec ts >=? max_u32 - 1); cbn [fst]; auto.
+        destruct ex; cbn [fst]; auto. unfold set_expire. destruct (w >=? max_u32 - 1); cbn [fst]; auto.
         apply vers_meta_put; auto. cbn. eapply hdr_ver; eauto.
       + unfold coll_set_expire. destruct (coll_header Compact s ts TS k) as [[h ud] ex] eqn:E. destruct ud as [[a b]|]; cbn [fst]; auto.
-        destruct ex; cbn [fst]; auto. unfold set_expire. destruct (dur + sec ts >=? max_u32 - 1); cbn [fst]; auto.
+        destruct ex; cbn [fst]; auto. unfold set_expire. destruct (w >=? max_u32 - 1); cbn [fst]; auto.
         apply vers_meta_put; auto. cbn. eapply hdr_ver; eauto.
       + unfold coll_set_expire. destruct (coll_header Compact s ts TZ k) as [[h ud] ex] eqn:E. destruct ud as [[a b]|]; cbn [fst]; auto.
-        destruct ex; cbn [fst]; auto. unfold set_expire. destruct (dur + sec ts >=? max_u32 - 1); cbn [fst]; auto.
+        destruct ex; cbn [fst]; auto. unfold set_expire. destruct (w >=? max_u32 - 1); cbn [fst]; auto.
         apply vers_meta_put; auto. cbn. eapply hdr_ver; eauto.
       + unfold coll_set_expire. destruct (coll_header Compact s ts TL k) as [[h ud] ex] eqn:E. destruct ud as [[a b]|]; cbn [fst]; auto.
-        destruct ex; cbn [fst]; auto. unfold set_expire. destruct (dur + sec ts >=? max_u32 - 1); cbn [fst]; auto.
+        destruct ex; cbn [fst]; auto. unfold set_expire. destruct (w >=? max_u32 - 1); cbn [fst]; auto.
         apply vers_meta_put; auto. cbn. eapply hdr_ver; eauto.
+      + unfold kv_set_expire. destruct (kv_raw Compact s ts k) as [[h ov] ex]. destruct ov; cbn [fst]; auto. destruct ex; cbn [fst]; auto.
+      + unfold coll_set_expire. destruct (coll_header Compact s ts TH k) as [[h ud] ex] eqn:E. destruct ud as [[a b]|]; cbn [fst]; auto. destruct ex; cbn [fst]; auto.
+      + unfold coll_set_expire. destruct (coll_header Compact s ts TS k) as [[h ud] ex] eqn:E. destruct ud as [[a b]|]; cbn [fst]; auto. destruct ex; cbn [fst]; auto.
+      + unfold coll_set_expire. destruct (coll_header Compact s ts TZ k) as [[h ud] ex] eqn:E. destruct ud as [[a b]|]; cbn [fst]; auto. destruct ex; cbn [fst]; auto.
+      + unfold coll_set_expire. destruct (coll_header Compact s ts TL k) as [[h ud] ex] eqn:E. destruct ud as [[a b]|]; cbn [fst]; auto. destruct ex; cbn [fst]; auto.
     - (* persist *) unfold do_persist. destruct t.
       + unfold kv_set_expire. destruct (kv_raw Compact s ts k) as [[h ov] ex]. destruct ov; cbn [fst]; auto.
         destruct ex; cbn [fst]; auto; destruct (set_expire h 0); cbn [fst]; auto.
